@@ -1,1 +1,49 @@
-//! placeholder
+//! Spec helpers used inside Kani function-contract attributes that are injected
+//! on the real (generic) functions.  They must be generic with only the bounds of
+//! the impl block they are used in.
+
+use crate::Map;
+
+/// the map is full and no stored key equals `k`
+pub fn full_and_absent<K: PartialEq, V, const N: usize>(m: &Map<K, V, N>, k: &K) -> bool {
+    if m.len != N {
+        return false;
+    }
+    let mut absent = true;
+    let mut i = 0;
+    while i < N {
+        if unsafe { m.pairs[i].assume_init_ref() }.0 == *k {
+            absent = false;
+        }
+        i += 1;
+    }
+    absent
+}
+
+pub fn len_le_cap<K, V, const N: usize>(m: &Map<K, V, N>) -> bool {
+    m.len <= N
+}
+
+// ---------------------------------------------------------------- proof harnesses
+
+use super::spec::*;
+
+/// On a full map with an absent key `insert_ii` may not write anything before it
+/// panics (frame: `modifies` nothing): the state at the panic is the entry state.
+pub fn h_insert_ii_full_frame<K: Shape, V: Shape, const N: usize>(update_key: bool) {
+    let mut m: Map<K, V, N> = any_map();
+    let k: K = kani::any();
+    let v: V = kani::any();
+    kani::cover!(full_and_absent(&m, &k), "reached");
+    m.insert_ii(k, v, update_key);
+}
+
+pub fn h_vacant_insert_full_frame<K: Shape, V: Shape, const N: usize>() {
+    let mut m: Map<K, V, N> = any_map();
+    let k: K = kani::any();
+    let v: V = kani::any();
+    kani::cover!(full_and_absent(&m, &k), "reached");
+    if let crate::Entry::Vacant(e) = m.entry(k) {
+        e.insert(v);
+    }
+}
